@@ -18,11 +18,11 @@ grep -qi -- "-race" $SRC/notes$K.md 2>/dev/null && race="-race"
 git apply $SRC/patch$K.diff || { echo "APPLY-FAIL"; exit 1; }
 go build ./... || { echo "BUILD-FAIL"; exit 1; }
 suite=$(/verif/scripts/run_suite.sh $WT | head -1)
-cp $demo $dir/zz_demo${K}_test.go
+cp $demo $dir/demo${K}_test.go
 (cd $WT && go test -count=1 $race -run "TestDemo${K}\$" ./$dir/ > /tmp/sv-$P-$DK.with.log 2>&1); with=$?
 git checkout -q -- . 
 (cd $WT && go test -count=1 $race -run "TestDemo${K}\$" ./$dir/ > /tmp/sv-$P-$DK.without.log 2>&1); without=$?
-rm -f $dir/zz_demo${K}_test.go
+rm -f $dir/demo${K}_test.go
 echo "$P-$DK suite=[$suite] demo-with-patch-exit=$with demo-without-exit=$without race=[$race] dir=$dir"
 if [ "$suite" = "passed 155 failed 0" ] && [ $with -ne 0 ] && [ $without -eq 0 ]; then
   D=/verif/seeded/$P-$DK; mkdir -p $D
